@@ -98,6 +98,7 @@ def run(ctx):
         ctx.count("oracle_evaluated")
     for (c, res, ml, il) in results[:3]:
         ctx.sample({"case": list(c), "impl": il.split(" | ")[0]})
+    EC.shared_component_stage(ctx, lambda ctx, case, res, base, w: oracle_case(ctx, case, res, base))
     EC.wholerun_stage(ctx, 2, 12, wholerun_record)
     ctx.assumptions.append("volumes are day counts x rate x 86.4; rates on the exact grid (rate 1.0)")
 
